@@ -495,10 +495,17 @@ func (s *store) edit(o op, ver int) {
 			s.att = map[string][]byte{}
 			return
 		}
+		// the ids are removed one after the other; if one of them is not (or no longer)
+		// there, the call is refused and nothing changes
+		left := map[string]bool{}
+		for k := range s.att {
+			left[k] = true
+		}
 		for _, k := range o.strs {
-			if _, ok := s.att[k]; !ok {
+			if blankS(k) || !left[k] {
 				return
 			}
+			delete(left, k)
 		}
 		for _, k := range o.strs {
 			delete(s.att, k)
@@ -652,7 +659,11 @@ func genOp(r *vh.Run, g genCfg, ver int, st *store) op {
 		for i := 0; i < n; i++ {
 			ks := sortedKeys(st.pr)
 			if len(ks) > 0 && !rare(4) {
-				o.strs = append(o.strs, ks[r.Rand.Intn(len(ks))])
+				k := ks[r.Rand.Intn(len(ks))]
+				for tries := 0; tries < 3 && i > 0 && k == o.strs[0]; tries++ {
+					k = ks[r.Rand.Intn(len(ks))] // prefer two different present names
+				}
+				o.strs = append(o.strs, k)
 			} else if rare(20) {
 				o.strs = append(o.strs, pick(r, nameRefused))
 			} else if rare(8) {
@@ -957,6 +968,8 @@ func main() {
 		[]op{pa("plain", "w", "k2", "x"), {code: "PR"}, {code: "PR"}},
 		[]op{pa("Title", "t", "Foo", "f"), {code: "PR", strs: []string{"Title"}}, {code: "PR", strs: []string{"Title"}}, {code: "PR"}},
 		[]op{pa("k", "v"), pa("k", "w"), {code: "PR", strs: []string{"k", "zz"}}, {code: "PR", strs: []string{"k"}}},
+		[]op{pa("k1", "v", "k2", "w", "k3", "x", "Ключ", "y"), {code: "PR", strs: []string{"k1", "k3"}}, {code: "PR", strs: []string{"zz", "Ключ", "k2"}}},
+		[]op{{code: "KA", strs: []string{"k1", "k2", "k3", "ключ"}}, {code: "KR", strs: []string{"k1", "k3"}}, {code: "KR", strs: []string{"zz", "ключ", "k2"}}},
 		[]op{vs(6, 3), {code: "KA", strs: []string{"a"}}},
 		[]op{{code: "AA", strs: []string{"a.txt"}, data: []byte("hello")}, {code: "AA", strs: []string{"b.txt"}, data: []byte{}}, {code: "AR", strs: []string{"a.txt", "zz"}}, {code: "AR", strs: []string{"a.txt"}}, {code: "AR"}, {code: "AR"}},
 	)
